@@ -269,6 +269,28 @@ def rule_r6(ctx):
         raise AnalysisBroken("only %d stores to chunk fields found" % n)
 
 
+def rule_r7(ctx):
+    r = ctx.rule("C17.R7", "T3", "dup copies what it records: in nni_msg_dup the number of header bytes copied into the new message is the "
+                 "header length stored in it (or the whole header buffer) -- a copy sized by anything else leaves the duplicate "
+                 "with the right length and the wrong bytes", floor=1)
+    f = ctx.prog.need("nni_msg_dup", "core/message.c")
+    cps = [c for c in f.calls("memcpy") if len(c.node["args"]) > 2 and any(
+        m.get("k") == "mem" and m.get("f") == "m_header_buf" for m in walk(f.expand(c.node["args"][0])))]
+    G.need_sites(cps, "copy of the header bytes", f)
+    lens = [t for t in f.assigns() if t.node["lhs"].get("k") == "mem" and t.node["lhs"].get("f") == "m_header_len"]
+    G.need_sites(lens, "store of the header length", f)
+    for c in cps:
+        n = f.expand(c.node["args"][2])
+        full = n is not None and n.get("k") == "sizeof" and "m_header_buf" in show(n)
+        if full or any(same_expr(n, f.expand(t.node["rhs"])) for t in lens):
+            r.ob(f, "header copy line %s sized by the recorded length" % c.line)
+        else:
+            ctx.fail(r, f, "header copy sized by %s" % show(n), c.line,
+                     "nni_msg_dup copies %s header bytes at line %s but records m_header_len = %s: headers longer than the copy "
+                     "come out zero-filled (a raw-mode backtrace of two or more hops loses its request id)"
+                     % (show(n), c.line, show(f.expand(lens[0].node["rhs"]))))
+
+
 def run(ctx):
     ctx.guard(rule_r1)
     ctx.guard(rule_r2)
@@ -276,3 +298,4 @@ def run(ctx):
     ctx.guard(rule_r4)
     ctx.guard(rule_r5)
     ctx.guard(rule_r6)
+    ctx.guard(rule_r7)
